@@ -372,7 +372,11 @@ def run_check(tier, base_seed, args):
         for sc, N in sorted(counts.items()):
             cases.append((sc, "KILL", 0))           # own end
             for s in sigs:
-                for n in range(1 + offset, N + 1, stride):
+                ns = set(range(1 + offset, N + 1, stride))
+                # the exit phase (marker written, exit-time callbacks running) is short: every
+                # one of its traced lines is a kill point in the quick tier too
+                ns |= set(range(max(1, N - 13), N + 1))
+                for n in sorted(ns):
                     cases.append((sc, s, n))
         relaunches = 2 if tier == "thorough" else 1
         results = []
